@@ -59,6 +59,11 @@ class FnInfo:
         self.probes = []
         self.lost = []
         self.assumed = False
+        self.unproved_anchor = None
+        self.unproved_reason = None
+        self.unproved_from_line = None
+        self.unproved_end_anchor = None
+        self.unproved_to_line = None
 
 
 def _registry_path(spec):
@@ -87,7 +92,7 @@ def load_source(file_spec):
 
 _SECTION = re.compile(
     r"^(tags|result|requires|ensures|decreases|first|last|opens|loop\s+\d+|"
-    r"(?:after|before)\s+`[^`]+`(?:#\d+)?|sub\s+`.*`\s*=>\s*`.*`)\s*:?(.*)$")
+    r"(?:after|before)\s+`[^`]+`(?:#\d+)?|unproved-from\s+`[^`]+`(?:\s+to\s+`[^`]+`)?|sub\s+`.*`\s*=>\s*`.*`)\s*:?(.*)$")
 
 
 def parse_directive(body):
@@ -414,6 +419,12 @@ def build_fn(unit, file_spec, item_spec, opts, sections, log, probes=False):
             if m and "invariant" in "\n".join(secd[key]):
                 probe(loops[int(m.group(1)) - 1] + 1, "loop%s.invariant" % m.group(1))
 
+    for key in secd:
+        um = re.match(r"unproved-from\s+`([^`]+)`(?:\s+to\s+`([^`]+)`)?$", key)
+        if um:
+            info.unproved_anchor = um.group(1)
+            info.unproved_end_anchor = um.group(2)
+            info.unproved_reason = " ".join(" ".join(secd[key]).split())
     info.clauses.append({"id": "safety", "kind": "safety",
                          "text": "no overflow / out-of-bounds index / failed unwrap-expect / reachable panic! / violated callee precondition in the body"})
 
@@ -536,6 +547,19 @@ def assemble(unit, template_text=None, probes=False):
         out.append(text)
         cur_line += text.count("\n")
         info.line_end = cur_line
+        if info.unproved_anchor:
+            k = text.find(info.unproved_anchor)
+            if k >= 0:
+                info.unproved_from_line = info.line_start + text.count("\n", 0, k)
+                info.unproved_to_line = info.line_end
+                if info.unproved_end_anchor:
+                    k2 = text.find(info.unproved_end_anchor, k)
+                    if k2 >= 0:
+                        info.unproved_to_line = info.line_start + text.count("\n", 0, k2)
+                    else:
+                        info.lost.append("unproved-from end anchor `%s` not found" % info.unproved_end_anchor)
+            else:
+                info.lost.append("unproved-from anchor `%s` not found" % info.unproved_anchor)
         if kind == "fn":
             for key, val in sections:
                 if key == "tags":
